@@ -9,7 +9,7 @@ SGR = re.compile(r'\x1b\[[\d;]*m')
 
 
 def session_for(ctx, k):
-    g = gen.SessionGen(ctx.seed * 15485867 + k, nconn=(1, 3), nmsg=(12, 35), junk=0.15, cmds=0.35, core=None if k % 2 else True,
+    g = gen.SessionGen(ctx.seed * 15485867 + k, nconn=(1, 3), nmsg=(12, 35), junk=0.15, cmds=0.35, core=None if k % 2 else True, unresolved=0.08,
                        matcher_depth=k % 3, with_init_filter=0.3, show=True)
     s = g.session()
     # every kind of command output at least sometimes
